@@ -107,6 +107,7 @@ def_free(jose_io_t *io)
 {
     io_t *i = containerof(io, io_t, io);
     deflateEnd(&i->strm);
+    jose_io_decref(i->next);
     free(i);
 }
 
@@ -130,6 +131,7 @@ inf_free(jose_io_t *io)
 {
     io_t *i = containerof(io, io_t, io);
     inflateEnd(&i->strm);
+    jose_io_decref(i->next);
     free(i);
 }
 
